@@ -299,8 +299,17 @@ def _r1(run, prog, eff):
                     r = _reaches(prog, eff, a, fn, set(NODES[a.qual]['builders']))
                     if r and all(('Material' in x or 'material' in x.lower() or x.split('.')[0] in ('Plasma', 'Beam', 'Laser')) for f in hit for x in pub[f]):
                         how = 'rebuild: ' + r
-            if how:
+            ordered, why = True, ''
+            if how == 'self.notifier.notify()' and '' in eff.summary(fn).notifies:
+                # the notification stands in the mutator itself: it must follow the assignment (observers read the new value)
+                from ..flow import refreshed_after_write
+                ordered, why = refreshed_after_write(fn, set(hit), lambda c: isinstance(c.func, ast.Attribute) and c.func.attr == 'notify'
+                                                     and norm(c.func.value) in ('self.notifier', 'self._notifier'))
+            if how and ordered:
                 run.ok('C01-R1', cname, 'writes %s read by %s; %s' % (hit, sorted(pub[hit[0]])[:3], how))
+            elif how:
+                run.fail('C01-R1', '%s|%s|%s:%s|notify-order' % (a.mod.name, a.name, kind, name), dc.mod.relpath, fn.lineno,
+                         "%s.%s writes %s, which %s read(s) inside a cached computation, but %s" % (a.name, name, hit, sorted(pub[hit[0]])[:3], why))
             else:
                 run.fail('C01-R1', '%s|%s|%s:%s|no-notify' % (a.mod.name, a.name, kind, name), dc.mod.relpath, fn.lineno,
                          "%s.%s writes %s, which %s read(s) inside a cached computation, but does not notify: the cache is not invalidated"
@@ -784,6 +793,8 @@ _IE = 'cherab/core/model/plasma/impact_excitation.pyx'
 _SR = 'cherab/core/model/attenuator/singleray.pyx'
 _LN = 'cherab/core/laser/node.pyx'
 MUTANTS = [
+    dict(name='beam-energy-notifies-before-assignment', file=_BN, find="        self._energy = value\n        self.notifier.notify()", replace="        self.notifier.notify()\n        self._energy = value", expect='C01-R1'),
+    dict(name='beam-energy-notifies-only-when-larger', file=_BN, find="        self._energy = value\n        self.notifier.notify()", replace="        bigger = value > self._energy\n        self._energy = value\n        if bigger:\n            self.notifier.notify()", expect='C01-R1'),
     dict(name='laser-subscribes-before-unsubscribing', file='cherab/core/laser/node.pyx', edits=[
         dict(file='cherab/core/laser/node.pyx', find="        #unregister from old plasma notifier\n", replace="        value.notifier.add(self._plasma_changed)\n"),
         dict(file='cherab/core/laser/node.pyx', find="        self._plasma.notifier.add(self._plasma_changed)\n", replace="")], expect='C01-R4'),
@@ -811,6 +822,7 @@ MUTANTS = [
 ]
 MUTANTS = [m for m in MUTANTS if m.get('expect') is not None]
 TWINS = [
+    dict(name='beam-energy-notifies-when-changed', file=_BN, find="        self._energy = value\n        self.notifier.notify()", replace="        changed = value != self._energy\n        self._energy = value\n        if changed:\n            self.notifier.notify()"),
     dict(name='laser-subscribes-through-the-parameter', file='cherab/core/laser/node.pyx',
          find="        self._plasma = value\n        self._plasma.notifier.add(self._plasma_changed)",
          replace="        value.notifier.add(self._plasma_changed)\n        self._plasma = value"),
